@@ -309,12 +309,27 @@ class _Skip(Exception):
     pass
 
 
+class _Env(dict):
+    """variable -> array; remembers every dtype that ever held a value during the run (inputs and
+    intermediates), because a float32/float16 intermediate rounds even when the final arrays are float64"""
+
+    def __init__(self, d):
+        super().__init__()
+        self.seen = set()
+        for k, v in d.items():
+            self[k] = v
+
+    def __setitem__(self, k, v):
+        self.seen.add(np.asarray(v).dtype.name)
+        super().__setitem__(k, v)
+
+
 def run_ir_numpy(prog, tags, nvars, base):
     """interpret the IR with the numpy / astropy / scipy calls it stands for.
     -> ('ok', {var: array}) | ('raise', kind) | ('stuck',)"""
     import astropy.units as u
     from scipy.ndimage import convolve1d
-    env = {k: np.array(base, dtype=DT2NP[t]) for k, t in enumerate(tags)}
+    env = _Env({k: np.array(base, dtype=DT2NP[t]) for k, t in enumerate(tags)})
 
     def val(o):
         if o[0] == 'var':
@@ -422,8 +437,11 @@ def k_ir(ctx, cases, n):
                 same = True
                 # the theorem idealises float rounding and range: compare to the precision of the
                 # narrowest float type that occurs, and leave out runs that leave the float32 range
-                kinds = {x.dtype.name for x in r[1].values()}
+                kinds = {x.dtype.name for x in r[1].values()} | r[1].seen
                 tol = 2e-2 if 'float16' in kinds else (1e-3 if 'float32' in kinds else 1e-9)
+                ctx.stat('ir', 'values_compared_at_' + ('float16' if 'float16' in kinds else
+                                                        'float32' if 'float32' in kinds else 'float64')
+                         + '_precision')
                 big = any(np.any(np.abs(np.asarray(x, float)[np.isfinite(np.asarray(x, float))]) > 1e30)
                           or np.any(np.isinf(np.asarray(x, float))) for x in r64[1].values())
                 if big or ('float16' in kinds and any(np.any(np.abs(np.asarray(x, float)) > 6e4)
